@@ -69,7 +69,7 @@ def case_gather_dead_branch():
 def case_overridable_initializer():
     s_init = numpy_helper.from_array(np.array([2, 3], dtype=np.int64), "s")
     g = helper.make_graph([helper.make_node("Reshape", ["x", "s"], ["y"])], "g",
-                          [vi("x", TensorProto.FLOAT, [2, 3]), vi("s", TensorProto.INT64, [2])], [vi("y", TensorProto.FLOAT, None)], [s_init])
+                          [vi("x", TensorProto.FLOAT, [2, 3]), vi("s", TensorProto.INT64, [2])], [vi("y", TensorProto.FLOAT, ["a", "b"])], [s_init])
     m = helper.make_model(g, opset_imports=[helper.make_opsetid("", 18)], ir_version=9)
     x = np.arange(6, dtype=np.float32).reshape(2, 3)
     return check(m, [{"x": x, "s": np.array([3, 2], dtype=np.int64)}], "Reshape(x[2,3], s) where s is an initializer AND a graph input, overridden with [3,2]")
